@@ -345,9 +345,9 @@ func c19Jobs(tier string) []*SeqJob {
 		defer func() { capPattern = 0 }()
 		return guard(func() (string, string) { c, d, _, _ := runPlain(n, opIndex(plainAlpha, ops[1:])); return c, d })
 	}
-	cached := &SeqJob{Property: "C19", Name: "cached-fan-out-histories", Shards: 6}
+	cached := &SeqJob{Property: "C19", Name: "cached-fan-out-histories", Shards: 10}
 	cached.Run = func(ctx *SeqCtx) {
-		for n := 0; n <= 5; n++ {
+		for n := 0; n <= 9; n++ {
 			if !ctx.Mine(n) {
 				continue
 			}
@@ -367,6 +367,188 @@ func c19Jobs(tier string) []*SeqJob {
 		var n int
 		fmt.Sscanf(ops[0], "children=%d", &n)
 		return guard(func() (string, string) { c, d, _, _ := runCached(n, opIndex(cachedAlpha, ops[1:])); return c, d })
+	}
+	// nested: a multi reporter is itself a child of two further multi reporters (first or last among their
+	// children), each with one child of its own; every inner child count from 0 to 8, both flavours
+	nested := &SeqJob{Property: "C19", Name: "nested-and-shared-multi-reporters"}
+	nestedRun := func(cachedFl bool, n int, innerFirst bool) (string, string, int) {
+		var log, refLog []string
+		mkKids := func(lg *[]string) (inner []*mChild, own1, own2 *mChild) {
+			for i := 0; i < n; i++ {
+				inner = append(inner, &mChild{id: i, log: lg, reporting: true, tagging: true})
+			}
+			return inner, &mChild{id: 100, log: lg, reporting: true, tagging: true}, &mChild{id: 200, log: lg, reporting: true, tagging: false}
+		}
+		in, o1, o2 := mkKids(&log)
+		rin, ro1, ro2 := mkKids(&refLog)
+		order := func(inner []*mChild, own *mChild) []*mChild {
+			if innerFirst {
+				return append(append([]*mChild{}, inner...), own)
+			}
+			return append([]*mChild{own}, inner...)
+		}
+		steps := 0
+		var caps1, caps2 tally.Capabilities
+		if !cachedFl {
+			var kids []tally.StatsReporter
+			for _, c := range in {
+				kids = append(kids, c)
+			}
+			inner := multi.NewMultiReporter(kids...)
+			w := func(own *mChild) tally.StatsReporter {
+				if innerFirst {
+					return multi.NewMultiReporter(inner, own)
+				}
+				return multi.NewMultiReporter(own, inner)
+			}
+			w1, w2 := w(o1), w(o2)
+			caps1, caps2 = w1.Capabilities(), w2.Capabilities()
+			for round := 0; round < 2; round++ {
+				w1.ReportCounter("c", tagsA, int64(1+round))
+				w2.ReportCounter("c", tagsA, int64(10+round))
+				w1.ReportGauge("g", tagsB, 1.5)
+				w2.ReportTimer("t", tagsA, 3)
+				w1.ReportHistogramValueSamples("h", tagsA, vb, 1, 2, 4)
+				w1.Flush()
+				w2.Flush()
+				steps += 7
+				for _, c := range order(rin, ro1) {
+					c.ReportCounter("c", tagsA, int64(1+round))
+				}
+				for _, c := range order(rin, ro2) {
+					c.ReportCounter("c", tagsA, int64(10+round))
+				}
+				for _, c := range order(rin, ro1) {
+					c.ReportGauge("g", tagsB, 1.5)
+				}
+				for _, c := range order(rin, ro2) {
+					c.ReportTimer("t", tagsA, 3)
+				}
+				for _, c := range order(rin, ro1) {
+					c.ReportHistogramValueSamples("h", tagsA, vb, 1, 2, 4)
+				}
+				for _, c := range order(rin, ro1) {
+					c.Flush()
+				}
+				for _, c := range order(rin, ro2) {
+					c.Flush()
+				}
+			}
+		} else {
+			var kids []tally.CachedStatsReporter
+			for _, c := range in {
+				kids = append(kids, c)
+			}
+			inner := multi.NewMultiCachedReporter(kids...)
+			w := func(own *mChild) tally.CachedStatsReporter {
+				if innerFirst {
+					return multi.NewMultiCachedReporter(inner, own)
+				}
+				return multi.NewMultiCachedReporter(own, inner)
+			}
+			w1, w2 := w(o1), w(o2)
+			caps1, caps2 = w1.Capabilities(), w2.Capabilities()
+			c1, c2 := w1.AllocateCounter("c", tagsA), w2.AllocateCounter("c", tagsA)
+			h1 := w1.AllocateHistogram("h", tagsB, vb)
+			b1, b2 := h1.ValueBucket(0, 1), h1.ValueBucket(1, 2)
+			c1.ReportCount(1)
+			c2.ReportCount(2)
+			b1.ReportSamples(3)
+			b2.ReportSamples(4)
+			w1.Flush()
+			w2.Flush()
+			steps += 11
+			var rc1, rc2 []tally.CachedCount
+			for _, c := range order(rin, ro1) {
+				rc1 = append(rc1, c.AllocateCounter("c", tagsA))
+			}
+			for _, c := range order(rin, ro2) {
+				rc2 = append(rc2, c.AllocateCounter("c", tagsA))
+			}
+			var rh []tally.CachedHistogram
+			for _, c := range order(rin, ro1) {
+				rh = append(rh, c.AllocateHistogram("h", tagsB, vb))
+			}
+			var rb1, rb2 []tally.CachedHistogramBucket
+			for _, h := range rh {
+				rb1 = append(rb1, h.ValueBucket(0, 1))
+			}
+			for _, h := range rh {
+				rb2 = append(rb2, h.ValueBucket(1, 2))
+			}
+			for _, c := range rc1 {
+				c.ReportCount(1)
+			}
+			for _, c := range rc2 {
+				c.ReportCount(2)
+			}
+			for _, b := range rb1 {
+				b.ReportSamples(3)
+			}
+			for _, b := range rb2 {
+				b.ReportSamples(4)
+			}
+			for _, c := range order(rin, ro1) {
+				c.Flush()
+			}
+			for _, c := range order(rin, ro2) {
+				c.Flush()
+			}
+		}
+		if !caps1.Reporting() || !caps1.Tagging() || !caps2.Reporting() || caps2.Tagging() {
+			return "capabilities-not-the-conjunction", fmt.Sprintf("nested, %d inner children: first wrapper reporting=%v tagging=%v (want true true), second wrapper (own child cannot tag) reporting=%v tagging=%v (want true false)", n, caps1.Reporting(), caps1.Tagging(), caps2.Reporting(), caps2.Tagging()), steps
+		}
+		// every call reaches every leaf of the reporter it was made on exactly once; leaves in the order given
+		// (bucket allocations may be made lazily: compare as multisets per leaf and in order per call kind)
+		count := func(l []string) map[string]int {
+			m := map[string]int{}
+			for _, e := range l {
+				m[e]++
+			}
+			return m
+		}
+		g, w := count(log), count(refLog)
+		for k, n2 := range w {
+			if g[k] != n2 {
+				return "child-call-differs", fmt.Sprintf("nested (inner first: %v, cached: %v), %d inner children shared by two wrappers: leaf call %q made %d times, expected %d\n log: %v", innerFirst, cachedFl, n, k, g[k], n2, log), steps
+			}
+		}
+		for k, n2 := range g {
+			if w[k] != n2 {
+				return "child-call-differs", fmt.Sprintf("nested (inner first: %v, cached: %v), %d inner children: unexpected leaf call %q x%d", innerFirst, cachedFl, n, k, n2), steps
+			}
+		}
+		return "", "", steps
+	}
+	nested.Run = func(ctx *SeqCtx) {
+		for _, fl := range []bool{false, true} {
+			for n := 0; n <= 8; n++ {
+				for _, first := range []bool{true, false} {
+					fl, n, first := fl, n, first
+					steps := 0
+					cl, det := guard(func() (string, string) { a, b, s := nestedRun(fl, n, first); steps = s; return a, b })
+					ops := []string{fmt.Sprint(fl), fmt.Sprint(n), fmt.Sprint(first)}
+					ctx.Case(steps, true, func() string { return fmt.Sprint("nested ", ops) })
+					ctx.State(fmt.Sprint(ops))
+					if cl != "" {
+						ctx.Fail(cl, det, ops)
+						if ctx.viol != nil {
+							return
+						}
+					}
+				}
+			}
+		}
+		ctx.Alphabet("inner child counts 0..8", "the shared inner reporter first or last among a wrapper's children", "plain and cached flavour")
+		ctx.DepthDone(1)
+	}
+	nested.Replay = func(ops []string) (string, string) {
+		var fl, first bool
+		var n int
+		fmt.Sscan(ops[0], &fl)
+		fmt.Sscan(ops[1], &n)
+		fmt.Sscan(ops[2], &first)
+		return guard(func() (string, string) { a, b, _ := nestedRun(fl, n, first); return a, b })
 	}
 	caps := &SeqJob{Property: "C19", Name: "capability-conjunction-all-assignments"}
 	capRun := func(assign []int) (string, string) {
@@ -415,7 +597,7 @@ func c19Jobs(tier string) []*SeqJob {
 		}
 		return guard(func() (string, string) { return capRun(a) })
 	}
-	return []*SeqJob{plain, cached, caps}
+	return []*SeqJob{plain, cached, caps, nested}
 }
 
 func compareLogs(got, want []string, n int) (string, string) {
